@@ -1,6 +1,7 @@
 package rules
 
 import (
+	"go/constant"
 	"go/token"
 	"strings"
 
@@ -21,16 +22,94 @@ func C11(c *Ctx) {
 	// (3)(4) pairing and queues
 	c.flushUnmodified("C11.queue")
 	c.familyPairing()
+	c.respondersWrite("C11.responder-writes")
 	// (5) who installs the state keys
 	c.stateKeyInstallers()
 	// (6) unwrapping
 	c.unwrapShape()
 }
 
+// mustQueue: every returning path of fn appends to an event queue, itself or
+// through a repository function that always does. Constant arguments are
+// bound to the callee's parameters, so that a helper's switch on the state
+// family is followed only on the side the caller selects.
+func (c *Ctx) mustQueue(fn *ssa.Function, bind map[ssa.Value]*ssa.Const, depth int, busy map[*ssa.Function]bool) (bool, []ssa.Instruction) {
+	if fn == nil || fn.Blocks == nil || depth > 5 || busy[fn] {
+		return false, nil
+	}
+	busy[fn] = true
+	defer delete(busy, fn)
+	constOf := func(v ssa.Value) *ssa.Const {
+		if k, ok := v.(*ssa.Const); ok {
+			return k
+		}
+		return bind[v]
+	}
+	queues := func(i ssa.Instruction) bool {
+		switch x := i.(type) {
+		case *ssa.Store:
+			if fa, ok := x.Addr.(*ssa.FieldAddr); ok {
+				if f := fieldName(fa); f == "sessionStateEvents" || f == "cookieStateEvents" {
+					return true
+				}
+			}
+		case ssa.CallInstruction:
+			if g := StaticCallee(x); g != nil && c.inRepo(g) && g != fn {
+				inner := map[ssa.Value]*ssa.Const{}
+				for k, a := range x.Common().Args {
+					if k < len(g.Params) {
+						if cv := constOf(a); cv != nil {
+							inner[g.Params[k]] = cv
+						}
+					}
+				}
+				ok, _ := c.mustQueue(g, inner, depth+1, busy)
+				return ok
+			}
+		}
+		return false
+	}
+	prune := func(from, to *ssa.BasicBlock) bool {
+		if len(from.Instrs) == 0 || len(from.Succs) != 2 || from.Succs[0] == from.Succs[1] {
+			return false
+		}
+		ifi, ok := from.Instrs[len(from.Instrs)-1].(*ssa.If)
+		if !ok {
+			return false
+		}
+		bo, ok := ifi.Cond.(*ssa.BinOp)
+		if !ok || (bo.Op != token.EQL && bo.Op != token.NEQ) {
+			return false
+		}
+		x, y := constOf(bo.X), constOf(bo.Y)
+		if x == nil || y == nil || x.Value == nil || y.Value == nil {
+			return false
+		}
+		eq := constant.Compare(x.Value, token.EQL, y.Value)
+		taken := eq == (bo.Op == token.EQL) // the true successor is taken
+		return (to == from.Succs[0]) != taken
+	}
+	q := PathQuery{StartBlock: fn.Blocks[0], Cut: queues, Prune: prune, Goal: func(i ssa.Instruction) bool { _, ok := i.(*ssa.Return); return ok }}
+	p := q.Find()
+	return p == nil, p
+}
+
 func (c *Ctx) familyPairing() {
 	r := c.R
 	sess := "session"
 	cook := "cookie"
+	// every call of the public API leaves its event in the queue: nothing is
+	// dropped because it looks redundant against the state read at the start of
+	// the request (events queued meanwhile may have changed what a put means)
+	for _, n := range []string{"ab.PutSession", "ab.DelSession", "ab.DelAllSession", "ab.PutCookie", "ab.DelCookie"} {
+		fn := c.P.Func(n)
+		ok, p := c.mustQueue(fn, nil, 0, map[*ssa.Function]bool{})
+		if ok {
+			r.Ok("C11.every-call", n, "queues its event on every path", c.P.Pos(fn.Pos()), "no returning path skips the queue")
+		} else {
+			r.Bad("C11.every-call", n, "queues its event on every path", c.P.Pos(fn.Pos()), "a call can return without its event having been queued (a put/delete judged redundant is dropped): the store does not receive the sequence of changes the handlers made", c.P.DescribePath(p)...)
+		}
+	}
 	// setState: switch on ctxKey -> append to matching queue
 	ss := c.queueFunc()
 	n := 0
@@ -592,4 +671,69 @@ func (c *Ctx) ctxKeysRead(entry *ssa.Function) ([]string, string) {
 	}
 	walk(entry, map[*ssa.Parameter]ssa.Value{}, 0)
 	return sortedKeys(seen), why
+}
+
+// respondersWrite: the library's own responders (defaults.Responder.Respond
+// and the modes of defaults.Redirector) finish every successful response with
+// at least one write through the ResponseWriter they were given. The pending
+// session/cookie events are flushed by that write: a responder that returns
+// nil without having written leaves them undelivered (net/http then sends the
+// implicit 200 on the underlying writer, past the ClientStateResponseWriter).
+func (c *Ctx) respondersWrite(rule string) {
+	r := c.R
+	n := 0
+	for _, fn := range c.P.Funcs {
+		if pkgOf(fn) != "ab/defaults" || fn.Signature.Recv() == nil || fn.Blocks == nil {
+			continue
+		}
+		rt := fn.Signature.Recv().Type().String()
+		if !strings.HasSuffix(rt, "defaults.Responder") && !strings.HasSuffix(rt, "defaults.Redirector") {
+			continue
+		}
+		// takes a ResponseWriter and returns an error
+		var w *ssa.Parameter
+		for _, p := range fn.Params {
+			if strings.HasSuffix(p.Type().String(), "http.ResponseWriter") {
+				w = p
+			}
+		}
+		res := fn.Signature.Results()
+		if w == nil || res.Len() != 1 || !IsErrorType(res.At(0).Type()) {
+			continue
+		}
+		n++
+		writes := func(i ssa.Instruction) bool {
+			call, ok := i.(ssa.CallInstruction)
+			if !ok {
+				return false
+			}
+			cc := call.Common()
+			if cc.IsInvoke() && (cc.Method.Name() == "WriteHeader" || cc.Method.Name() == "Write") && strings.HasSuffix(cc.Value.Type().String(), "http.ResponseWriter") {
+				return true
+			}
+			switch Callee(call) {
+			case "net/http.Redirect", "net/http.Error", "io.WriteString", "fmt.Fprintf", "fmt.Fprint", "fmt.Fprintln", "io.Copy":
+				return true
+			}
+			// another responder of the same type, or a function value selected among them
+			if g := StaticCallee(call); g != nil && g != fn && pkgOf(g) == "ab/defaults" && g.Signature.Recv() != nil {
+				return true
+			}
+			if Callee(call) == "" && !cc.IsInvoke() {
+				for _, a := range cc.Args {
+					if a == ssa.Value(w) {
+						return true // r.redirectAPI / r.redirectNonAPI selected into a variable
+					}
+				}
+			}
+			return false
+		}
+		q := PathQuery{StartBlock: fn.Blocks[0], Cut: writes, GoalP: c.nonErrorReturn}
+		if p := q.Find(); p != nil {
+			r.Bad(rule, FuncName(fn), "success ⇒ written through w", posf(c, p[len(p)-1]), "the responder can report success without having written anything through the ResponseWriter: the session/cookie changes queued by the handler are never flushed to their stores", c.P.DescribePath(p)...)
+		} else {
+			r.Ok(rule, FuncName(fn), "success ⇒ written through w", c.P.Pos(fn.Pos()), "every successful completion writes (and thereby flushes the queued client state)")
+		}
+	}
+	r.Check(n >= 3, rule, "ab/defaults", "responders found", "-", sprintf("%d responder functions", n), sprintf("expected at least 3 responder functions in defaults, found %d", n))
 }
